@@ -2,7 +2,7 @@
 import io
 import struct
 
-from vf import usage, streams
+from vf import usage, streams, textpool
 from vf.enc import elf as W
 from vf.choose import RndChooser, composite_from
 
@@ -35,6 +35,12 @@ def lib():
 # sysv elf_hash: (h<<4)+c => (x,y) and (x+1,y-16) collide (no overflow for short names)
 GNU_FAM = ['ab', 'bA', 'ac', 'bB', 'c!', 'aa', 'b@']
 SYSV_FAM = ['ab', 'bR', 'cB', 'ac', 'bS']
+# the symbol machinery is the same for every e_machine; the values of the gABI table that toolchains still emit, plus unassigned ones
+MACHINES = [0, 1, 2, 3, 4, 7, 8, 10, 15, 18, 20, 21, 22, 23, 36, 40, 41, 42, 43, 50, 62, 75, 83, 88, 92, 94, 105, 106, 113, 164, 183, 189, 195,
+            224, 243, 247, 252, 258, 0x9026, 0xa390, 0xfffe, 0x1234]
+# 64-bit Alpha and s390x define the SysV hash table with 8-byte words (sh_entsize 8) against the gABI: no SysV table is generated there,
+# neither reading is demanded
+WIDE_HASH_MACHINES = (22, 41, 0x9026, 0xa390)
 PREFIXES = ['', 'f', 'x_', 'sym', 'é', 'λ', 'very_long_symbol_name_' * 4]
 
 
@@ -43,7 +49,7 @@ def name_pool():
     for p in PREFIXES:
         for s in GNU_FAM + SYSV_FAM:
             pool.append(p + s)
-    pool += ['a', 'b', 'c', 'd', 'aa', 'main', '_start', 'printf', '中文名字', 'Ünïcödé']
+    pool += ['a', 'b', 'c', 'd', 'aa', 'main', '_start', 'printf', '中文名字', 'Ünïcödé'] + textpool.SPECIAL_NAMES
     out = []
     for n in pool:
         if n not in out:
@@ -402,11 +408,12 @@ def build_case(ch, tier, n=None):
         syms.append({'name': nm, 'value': ch.word(cls), 'size': ch.word(cls), 'info': ch.choice([0x10, 0x11, 0x12, 0x20, 0x22, ch.int(0, 255)]),
                      'other': ch.choice([0, 1, 2, 3, ch.int(0, 255)]), 'shndx': shndx})
     case = {'cls': cls, 'le': le, 'syms': syms, 'tabtype': ch.choice([11, 11, 2, 0x6ffffff3]), 'gnu': gnu,
-            'share_suffix': ch.bool(0.3), 'e_machine': ch.choice([62, 3, 40, 21, 2]), 'osabi': ch.choice([0, 0, 6])}
+            'share_suffix': ch.bool(0.3), 'e_machine': ch.choice([62, 3, 40, 21, 2, ch.choice(MACHINES), ch.choice(MACHINES)]), 'osabi': ch.choice([0, 0, 6])}
     hashable = case['tabtype'] in (2, 11)     # hash / syminfo sections must link to SYMTAB or DYNSYM
+    wide_hash = cls == 64 and case['e_machine'] in WIDE_HASH_MACHINES
     if not hashable:
         case['gnu'] = None
-    if hashable and ch.bool(0.7):
+    if hashable and not wide_hash and ch.bool(0.7):
         nb = ch.choice([1, 1, 2, 3, 17, ch.int(1, 64)])
         sv = {'nbucket': nb}
         if ch.bool(0.3):
@@ -463,6 +470,16 @@ def sweep(tier):
     ch = RndChooser(31337)
     for n in (1, 2, 400):
         cases.append(build_case(ch, tier, n))
+    # one small table with both hash sections for every e_machine of the list, in the class / byte order cells in turn
+    fam = [''] + sorted(GNU_FAM[:6] + SYSV_FAM[:6], key=lambda nm: W.gnu_hash(nm.encode('utf-8')) % 3)
+    for k, mach in enumerate(MACHINES):
+        for cls in (32, 64):
+            syms3 = [{'name': nm, 'value': i * 8, 'size': i, 'info': 0x12, 'other': 0, 'shndx': 1 if i else 0} for i, nm in enumerate(fam)]
+            c = {'cls': cls, 'le': bool((k + cls // 32) % 2), 'syms': syms3, 'tabtype': 11, 'e_machine': mach, 'osabi': (0, 0, 6)[k % 3],
+                 'gnu': {'symoffset': 1, 'nbuckets': 3, 'bloom_size': 2, 'bloom_shift': 6}, 'queries': fam + ['zz', 'abab'], 'probe': [0, 1]}
+            if not (cls == 64 and mach in WIDE_HASH_MACHINES):
+                c['sysv'] = {'nbucket': 3}
+            cases.append(c)
     # string offsets >= 2**31 and tables far into the file (sparse files)
     for k, (cls, far, nameoff) in enumerate(((64, 0x1000, 0x7ffffff0), (64, 0x1000, 0x80000010), (64, 1 << 32, 0xfffffe00), (32, 0x1000, 0x7ffffff8),
                                              (32, 0x2000, 0x80000100), (64, (1 << 40) + 0x10, 0x90000000))):
